@@ -30,6 +30,9 @@ def pairs(tier):
     return out
 
 
+SAME_WEIGHT_PAIRS = [(2, (2, 1, 0), 2, (1, 2, 0)), (2, (0, 2, 0), 3, (0, 1, 0)), (1, (1, 0, 1), 1, (1, 1, 0))]
+
+
 def ptag(pr, variant, extra=""):
     return "A=p%d/%s,B=p%d/%s,kv=%d%s" % (pr[0], "".join(map(str, pr[1])), pr[2], "".join(map(str, pr[3])), variant, extra)
 
@@ -78,7 +81,8 @@ BIN = {
 }
 
 
-def task_binary(pr, variant, rational, tier):
+def task_binary(pr, variant, rational, tier, shared=False):
+    """shared: both operands carry the SAME concrete weight list (equal npts, different degree / multiplicity patterns)."""
     pa, ca, pb, cb = pr
     U, V = vec(pa, ca, variant), vec(pb, cb, variant)
     na, nb = len(U) - pa - 1, len(V) - pb - 1
@@ -88,10 +92,13 @@ def task_binary(pr, variant, rational, tier):
     mon = con.Monitor().install(heavy)
     try:
         an, bn = ["A%d" % i for i in range(na)], ["B%d" % i for i in range(nb)]
-        wa = ["u%d" % i for i in range(na)] if rational else []
-        wbn = ["v%d" % i for i in range(nb)] if rational else []
+        wa = ["u%d" % i for i in range(na)] if rational and not shared else []
+        wbn = ["v%d" % i for i in range(nb)] if rational and not shared else []
+        assert not shared or (rational and na == nb)
         for opname in ("add", "sub", "mul", "div"):
             if opname in ("mul",) and pa + pb > (3 if tier == "quick" else 5):
+                continue
+            if shared and opname in ("mul", "div"):
                 continue
             ctx = con.con_ctx(an + bn + wa + wbn + ["t"])
             H.positive(ctx, wa + wbn)
@@ -102,6 +109,9 @@ def task_binary(pr, variant, rational, tier):
                 PA, PB = [ctx.sym(x) for x in an], [ctx.sym(x) for x in bn]
                 WA = [ctx.sym(x) for x in wa] if rational else None
                 WB = [ctx.sym(x) for x in wbn] if rational else None
+                if shared:
+                    WA = [F(i % 3 + 1, i // 3 + 1) for i in range(na)]
+                    WB = list(WA)
                 t = ctx.sym("t")
                 A_ = chk.call(curves.Curve, list(U), PA, WA)
                 B_ = chk.call(curves.Curve, list(V), PB, WB)
@@ -116,9 +126,9 @@ def task_binary(pr, variant, rational, tier):
                     chk.add("interval", R.knotvector[0] == U[0] and R.knotvector[-1] == U[-1], "result lives on the operands' interval")
                 chk.add("operands-unchanged", same_state(sa, snapshot(A_)) and same_state(sb, snapshot(B_)), "operands are not modified")
 
-            out += H.run_paths(ctx, fn_of[opname], "S-con", ptag(pr, variant, ",%s,%s" % (opname, "rat" if rational else "pol")),
-                               dict(kind="c08.bin", pr=pr, variant=variant, op=opname, rational=rational), body)
-        if not rational and pa + pb <= (3 if tier == "quick" else 5):
+            out += H.run_paths(ctx, fn_of[opname], "S-con", ptag(pr, variant, ",%s,%s" % (opname, "rat-same-weights" if shared else "rat" if rational else "pol")),
+                               dict(kind="c08.bin", pr=pr, variant=variant, op=opname, rational=rational, shared=shared), body)
+        if not rational and not shared and pa + pb <= (3 if tier == "quick" else 5):
             an2 = ["A%d_%d" % (i, d) for i in range(na) for d in range(2)]
             bn2 = ["B%d_%d" % (i, d) for i in range(nb) for d in range(2)]
             ctx = con.con_ctx(an2 + bn2 + ["t"])
@@ -274,6 +284,10 @@ def tasks(tier, seed):
             ts.append((task_scalar, (p, cells, variant, False)))
             if p in (1, 2) and variant == 0:
                 ts.append((task_scalar, (p, cells, variant, True)))
+    # rational operands with the SAME weight list and the same distinct knots but different multiplicity patterns / degrees (equal npts)
+    for pr in SAME_WEIGHT_PAIRS:
+        for variant in ((0,) if tier == "quick" else (0, 1)):
+            ts.append((task_binary, (pr, variant, True, tier, True)))
     ts.append((task_interval, (0,)))
     return ts
 
@@ -293,6 +307,9 @@ def replay(o):
             PB = [abs(x) + 1 for x in PB]
         WA = [abs(pt.get("u%d" % i, F(1))) or F(1) for i in range(na)] if w["rational"] else None
         WB = [abs(pt.get("v%d" % i, F(1))) or F(1) for i in range(nb)] if w["rational"] else None
+        if w.get("shared"):
+            WA = [F(i % 3 + 1, i // 3 + 1) for i in range(na)]
+            WB = list(WA)
         A_, B_ = curves.Curve(list(U), PA, WA), curves.Curve(list(V), PB, WB)
         f = BIN[w["op"]][0]
         try:
